@@ -209,6 +209,9 @@ func newJobWorld(scn JobScenario) *jobWorld {
 	w.Base = b
 	b.Budget = scn.Budget
 	b.Horizon = time.Duration(scn.Horizon) * time.Second
+	if scn.ForeignPod != "" {
+		b.StaticFeatures = append(b.StaticFeatures, "foreign-pod")
+	}
 	b.API.OnWrite = w.onWrite
 
 	// Initial objects: the Job(s), created through real admission, then started.
@@ -490,6 +493,23 @@ func (w *jobWorld) envApply(action string) {
 		}
 		w.API.EnvRemove(sim.Pods, key)
 		w.noteRemoved(p)
+		// A pod that succeeded but disappears before its success was recorded in the
+		// Job status is, for every observer, a lost task: the outcome of that attempt
+		// is "lost", not "succeeded".
+		if p != nil && w.mem.Ended[p.Name] == "succeeded" {
+			recorded := false
+			if rj := w.jobByUID(podJobUID(p)); rj != nil {
+				for _, t := range rj.Status.Tasks {
+					if t.Name == p.Name && t.Status.Result == execution.TaskSucceeded {
+						recorded = true
+					}
+				}
+			}
+			if !recorded {
+				w.mem.Ended[p.Name] = "lost"
+				delete(w.mem.Succeeded, podJobUID(p)+"/"+podHash(p))
+			}
+		}
 	case "u:start":
 		w.startJob("default/" + parts[2])
 	case "u:kill":
@@ -575,7 +595,17 @@ func (w *jobWorld) outcome() string {
 
 // ---- monitors ----
 
-func (w *jobWorld) features() []string { return w.Features() }
+func (w *jobWorld) features() []string {
+	f := w.Features()
+	if w.mem.KillsUsed > 0 {
+		f = append(f, "kill")
+	}
+	if len(w.mem.Deleted) > 0 {
+		f = append(f, "delete")
+	}
+	sort.Strings(f)
+	return f
+}
 
 func (w *jobWorld) jobByUID(uid string) *execution.Job {
 	for _, jk := range w.jobKeys {
@@ -868,9 +898,11 @@ func (w *jobWorld) onJobWrite(wr sim.Write) {
 	case "delete":
 		old := wr.Old.(*execution.Job)
 		w.Count("C13.job-removed")
-		for _, p := range w.podsOf(old) {
-			w.Violate("C13", "job-removed-before-tasks", fmt.Sprintf("job %s left the API while pod %s still exists", old.Name, p.Name), w.features()...)
-			break
+		for _, t := range old.Status.Tasks {
+			if p := w.API.Pod("default/" + t.Name); p != nil && controlledBy(p, old) {
+				w.Violate("C13", "job-removed-before-tasks", fmt.Sprintf("job %s left the API while its listed task %s still exists", old.Name, p.Name), w.features()...)
+				break
+			}
 		}
 		return
 	case "markdelete":
@@ -880,7 +912,30 @@ func (w *jobWorld) onJobWrite(wr sim.Write) {
 			fin := old.Status.Condition.Finished
 			ttl := jobutil.GetTTLAfterFinished(old, w.cfg())
 			if fin == nil {
-				w.Violate("C13", "ttl-delete-unfinished", "controller deleted job "+old.Name+" which is not finished", w.features()...)
+				// The controller may delete in the very sync in which it first computes the
+				// finished condition (the status write follows). Judge against ground truth:
+				// the job must really be over, and the TTL is counted from the last task end.
+				ds, df := w.truth(old)
+				alive := 0
+				var lastEnd int64
+				for _, p := range w.podsOf(old) {
+					if !podFinished(p) {
+						alive++
+					}
+				}
+				for id, end := range w.mem.LastEnd {
+					if strings.HasPrefix(id, string(old.UID)+"/") && end > lastEnd {
+						lastEnd = end
+					}
+				}
+				killed := old.Spec.KillTimestamp != nil && !old.Spec.KillTimestamp.After(w.Now())
+				_, ae := jobutil.GetAdmissionErrorMessage(old)
+				switch {
+				case alive > 0 || !(ds || df || killed || ae):
+					w.Violate("C13", "ttl-delete-unfinished", "controller deleted job "+old.Name+" which is not finished", w.features()...)
+				case !ae && !killed && int64(w.Offset()) < lastEnd+int64(ttl.Seconds()):
+					w.Violate("C13", "ttl-early", fmt.Sprintf("controller deleted job %s at +%ds, last task ended +%ds, ttl %v", old.Name, int64(w.Offset()), lastEnd, ttl), w.features()...)
+				}
 			} else if w.Now().Before(fin.FinishTimestamp.Add(ttl)) {
 				w.Violate("C13", "ttl-early", fmt.Sprintf("controller deleted job %s at +%ds, finish +%ds, ttl %v", old.Name, int64(w.Offset()), int64(fin.FinishTimestamp.Sub(sim.Epoch).Seconds()), ttl), w.features()...)
 			}
@@ -1016,7 +1071,7 @@ func (w *jobWorld) checkState(quiescent bool) {
 		// C11 coherence at quiescence for reconciled jobs.
 		if rj.Status.Phase != "" {
 			if msg := w.coherent(rj); msg != "" {
-				w.Violate("C11", "incoherent-at-rest", msg)
+				w.Violate("C11", "incoherent-at-rest", msg, w.features()...)
 			}
 		}
 		// C09: every controlled pod is listed.
@@ -1026,7 +1081,7 @@ func (w *jobWorld) checkState(quiescent bool) {
 		}
 		for _, p := range pods {
 			if !listed[p.Name] {
-				w.Violate("C09", "pod-not-listed", "pod "+p.Name+" is controlled by the job but not listed in status.tasks at rest")
+				w.Violate("C09", "pod-not-listed", "pod "+p.Name+" is controlled by the job but not listed in status.tasks at rest", w.features()...)
 			}
 		}
 		started := !rj.Status.StartTime.IsZero()
@@ -1046,7 +1101,7 @@ func (w *jobWorld) checkState(quiescent bool) {
 				} else if fin == nil {
 					w.Violate("C12", "kill-liveness", "kill timestamp passed, no task alive, system at rest, job not terminal (phase "+string(rj.Status.Phase)+")")
 				} else if fin.Result != execution.JobResultKilled && fin.Result != execution.JobResultAdmissionError && !w.finishedBeforeKill(rj) {
-					w.Violate("C12", "kill-result", "job killed but result is "+string(fin.Result))
+					w.Violate("C12", "kill-result", "job killed but result is "+string(fin.Result), w.features()...)
 				}
 			}
 		}
@@ -1054,7 +1109,7 @@ func (w *jobWorld) checkState(quiescent bool) {
 		if pt := jobutil.GetPendingTimeout(rj, cfg); pt > 0 && !future {
 			for _, p := range pods {
 				if !podRan(p) && !podFinished(p) && p.DeletionTimestamp == nil && !now.Before(p.CreationTimestamp.Add(pt)) {
-					w.Violate("C12", "pending-liveness", "pod "+p.Name+" exceeded the pending timeout, system at rest, not deleted")
+					w.Violate("C12", "pending-liveness", "pod "+p.Name+" exceeded the pending timeout, system at rest, not deleted", w.features()...)
 				}
 			}
 		}
@@ -1064,9 +1119,9 @@ func (w *jobWorld) checkState(quiescent bool) {
 				ds, df := w.truth(rj)
 				switch {
 				case ds && alive == 0 && (fin == nil || fin.Result != execution.JobResultSuccess):
-					w.Violate("C10", "success-not-reached", "strategy satisfied, no task alive, system at rest, job phase "+string(rj.Status.Phase))
+					w.Violate("C10", "success-not-reached", "strategy satisfied, no task alive, system at rest, job phase "+string(rj.Status.Phase), w.features()...)
 				case df && !ds && alive == 0 && (fin == nil || fin.Result != execution.JobResultFailed):
-					w.Violate("C10", "failure-not-reached", "strategy unsatisfiable, no task alive, system at rest, job phase "+string(rj.Status.Phase))
+					w.Violate("C10", "failure-not-reached", "strategy unsatisfiable, no task alive, system at rest, job phase "+string(rj.Status.Phase), w.features()...)
 				case (ds || df) && alive > 0 && !w.scn.KubeletDead:
 					w.Violate("C10", "leftovers-not-stopped", fmt.Sprintf("strategy decided, system at rest, %d superfluous task(s) still alive", alive))
 				case !ds && !df && alive == 0 && fin == nil:
@@ -1077,19 +1132,19 @@ func (w *jobWorld) checkState(quiescent bool) {
 		// C09: foreign pod => AdmissionError.
 		if w.scn.ForeignPod != "" && jk == "default/j1" && started && !future && rj.DeletionTimestamp == nil && rj.Spec.KillTimestamp == nil {
 			if rj.Status.Phase != execution.JobAdmissionError {
-				w.Violate("C09", "foreign-no-admission-error", "task name occupied by a foreign pod, system at rest, job phase is "+string(rj.Status.Phase)+" instead of AdmissionError")
+				w.Violate("C09", "foreign-no-admission-error", "task name occupied by a foreign pod, system at rest, job phase is "+string(rj.Status.Phase)+" instead of AdmissionError", w.features()...)
 			}
 		}
 		// C13: deletion completes; TTL liveness.
 		if rj.DeletionTimestamp != nil && len(pods) == 0 && !future {
-			w.Violate("C13", "deletion-stuck", "job is being deleted, no task exists, system at rest, job still present")
+			w.Violate("C13", "deletion-stuck", "job is being deleted, no task exists, system at rest, job still present", w.features()...)
 		}
 		if rj.DeletionTimestamp != nil && len(pods) > 0 && !future && !w.scn.KubeletDead {
 			w.Violate("C13", "deletion-stuck", fmt.Sprintf("job is being deleted, system at rest, %d task(s) still exist", len(pods)))
 		}
 		if fin != nil && rj.DeletionTimestamp == nil && !future {
 			if !now.Before(fin.FinishTimestamp.Add(jobutil.GetTTLAfterFinished(rj, cfg))) {
-				w.Violate("C13", "ttl-liveness", "finished job is past its TTL, system at rest, not deleted")
+				w.Violate("C13", "ttl-liveness", "finished job is past its TTL, system at rest, not deleted", w.features()...)
 			}
 		}
 	}
